@@ -147,7 +147,7 @@ def body_for(p: Program, h, inp):
                     key = f"a{kk}_{i}_v" if f"a{kk}_{i}_v" in inp else None
                     v = g(key) if key else ((g("in_raw") >> (ff.ranges[0][0] + i * ff.stride)) & ((1 << ff.ranges[0][1]) - 1) if ff.contiguous else 0)
                     if ff.ty.kind in ("enum", "optenum"):
-                        ds = [vv for _, vv in ff.ty.ref.variants]
+                        ds = [vv for _, vv in ff.ty.ref.active()]
                         if v not in ds:
                             v = ds[0]
                     vals.append(v)
@@ -157,7 +157,7 @@ def body_for(p: Program, h, inp):
                 key = f"a{kk}_v"
                 v = g(key) if key in inp else 0
                 if ff.ty.kind in ("enum", "optenum"):
-                    ds = [vv for _, vv in ff.ty.ref.variants]
+                    ds = [vv for _, vv in ff.ty.ref.active()]
                     if v not in ds:
                         v = ds[0]
                 acc = f"put_spec({acc}, {ff.ranges_lit()}, 0, {u(v)})"
@@ -186,6 +186,9 @@ edition = "2021"
 [dependencies]
 bitbybit = {{ path = "{repo}/bitbybit" }}
 arbitrary-int = "1.3.0"
+
+[features]
+test123 = []
 
 [workspace]
 
